@@ -4,13 +4,15 @@ from mc import worlds as W
 from mc.monitors2 import MetaRefs
 
 LEVEL = 'model_checking'
-NAMES = ['W_schema', 'W_sum', 'W_2way', 'W_sumsum']
-D = W.depths_for(NAMES, quick=2, thorough=3, overrides={'quick': {'W_sum': 1, 'W_2way': 1, 'W_sumsum': 1},
-                                                         'thorough': {'W_sum': 2, 'W_2way': 2, 'W_sumsum': 2}})
+NAMES = ['W_schema', 'W_sum', 'W_2way', 'W_sumsum', 'W_views']
+D = W.depths_for(NAMES, quick=2, thorough=3, overrides={'quick': {'W_sum': 1, 'W_2way': 1, 'W_sumsum': 1, 'W_views': 2},
+                                                         'thorough': {'W_sum': 2, 'W_2way': 2, 'W_sumsum': 2, 'W_views': 3}})
 P = HistProp('C09', lambda t: W.make(NAMES), lambda w, t: [MetaRefs()], D,
              rule='all histories of table/column/view/section/field/summary actions incl. removals; '
                   'after every successful bundle: columns->table, fields->section and a column of '
                   'that section\'s table, sections->table/view, tables->raw/record-card sections, '
                   'display/rule helper columns still used, one metadata record + raw section per '
-                  'user table, and every other Ref/RefList cell of the metadata tables resolves')
+                  'user table, and every other Ref/RefList cell of the metadata tables resolves; W_views adds '
+                  'widgets linked across tables, a saved filter, a field rule on a summary widget, a '
+                  'display formula on a record-card field, and the removals/regroupings that orphan them')
 run, replay = P.run, P.replay
